@@ -5,7 +5,7 @@ metrics, .notdef variant, keepGlyphNames, op alphabet, maximum length); every la
 glyph.  Every prefix is a state of its own, compiled by the real ufo2ft, saved, reloaded, re-saved.
 
   part "h": op = [advance, outline]     advance in {0, 500.5, 600}, outline in {none, box, neg, comp}
-  part "v": op = [height, vorg, outline] height in {0, 1000}, vorg in {None, 800, 900}, outline in {none, box}
+  part "v": op = [height, vorg, outline] height in {0, 1000.5}, vorg in {None, 800, 900.5}, outline in {none, box}
   part "cp": op = code point (or None) of the next glyph, from a palette around 0xFFFF
 
 The oracle recomputes every derived field from the *stored glyph data of the reloaded font* (glyf
@@ -32,7 +32,7 @@ NEGBOX = B.box(-40, -10, 250, 500)
 COMP_OFFSET = (30, 10)
 H_OPS_SMALL = [[a, k] for a in ADVANCES for k in ("none", "box")]
 H_OPS_FULL = [[a, k] for a in ADVANCES for k in ("none", "box", "neg", "comp")]
-V_OPS = [[ht, vo, k] for ht in (0, 1000) for vo in (None, 800, 900) for k in ("none", "box")]
+V_OPS = [[ht, vo, k] for ht in (0, 1000.5) for vo in (None, 800, 900.5) for k in ("none", "box")]
 CP_PALETTE = [None, 0x20, 0x41, 0xFFFE, 0xFFFF, 0x10000, 0x10FFFF]
 VERT_INFO = {"openTypeVheaVertTypoAscender": 500, "openTypeVheaVertTypoDescender": -500,
              "openTypeVheaVertTypoLineGap": 0}
@@ -503,6 +503,10 @@ class C04(Property):
                 ctrs["nested_composite"] = 1
         if any(s["adv"] != int(s["adv"]) for s in src.values()):
             ctrs["half_integer_advance"] = 1
+        if vm is not None and any(s["height"] != int(s["height"]) for s in src.values()):
+            ctrs["half_integer_height"] = 1
+        if "VORG" in tt and any(s["vorg"] is not None and s["vorg"] != int(s["vorg"]) for s in src.values()):
+            ctrs["half_integer_vertical_origin"] = 1
         if exp["OS/2"]["usLastCharIndex"] == 0xFFFF:
             ctrs["last_char_index_clamped_or_ffff"] = 1
         if "vhea" in exp and exp["vhea"]["numberOfVMetrics"] < len(order):
@@ -520,6 +524,7 @@ class C04(Property):
                 "first_glyph_empty", "no_outlines_at_all", "negative_lsb", "negative_rsb", "has_composite",
                 "nested_composite", "half_integer_advance", "post_format_3", "vorg_mixed_origins",
                 "vorg_first_glyph_in_minority", "vorg_tied_majority", "trailing_equal_heights",
+                "half_integer_height", "half_integer_vertical_origin",
                 "last_char_index_clamped_or_ffff"]
         return [violation("vacuous", {"counter": k}) for k in need if not c.get(k)]
 
